@@ -537,6 +537,7 @@ func (c *cbComp) Run(h *hlib.History) ([]hlib.Mon, bool) {
 	var recA, recN int64                  // passed / total arrivals since recovery began
 	var log []rec                         // C18: records since the last observed trip
 	maxLat := int64(-1)                   // C18: largest latency (ns) recorded since the last observed trip, -1 = none
+	minLat := int64(-1)                   // C18: smallest such latency, -1 = none
 	checked, nextCheck := false, int64(0) // C18: a check was performed; no further check up to and including nextCheck
 	var expT, expS int64                  // C18: transitions into tripped / standby observed so far
 	dyadic := isPow2(recD)
@@ -700,6 +701,22 @@ func (c *cbComp) Run(h *hlib.History) ([]hlib.Mon, bool) {
 			if maxLat >= 0 {
 				latBound = (maxLat+maxLat/100)/1000000 + 1
 			}
+			if lat := now - rq.start; minLat < 0 || lat < minLat {
+				minLat = lat
+			}
+			// and at least: every response since the last trip took minLat or longer and this one was just recorded, so no
+			// quantile from the median up can lie below it (1 % bucket width, 1 ms); the histogram's documented range ends at one hour
+			if minLat >= 0 && maxLat <= 3600*second {
+				low := (minLat-minLat/50)/1000000 - 1
+				for i, v := range lats {
+					if latAtoms[i].q < 500 {
+						continue // hdrhistogram answers 0 for a quantile below half a sample (q% of N + 0.5 < 1): only the median and above
+					}
+					if v < low {
+						mon("C18", step, "latency oracle: LatencyAtQuantileMS(%d.%d) = %d ms, but every one of the %d responses recorded since the last trip took at least %d ns: slow responses are missing from the quantiles", latAtoms[i].q/10, latAtoms[i].q%10, v, len(log), minLat)
+					}
+				}
+			}
 			for i, v := range lats {
 				if v < 0 || v > latBound {
 					mon("C18", step, "latency oracle: LatencyAtQuantileMS(%d.%d) = %d ms, but the largest latency recorded since the last trip is %d ns", latAtoms[i].q/10, latAtoms[i].q%10, v, maxLat)
@@ -739,6 +756,7 @@ func (c *cbComp) Run(h *hlib.History) ([]hlib.Mon, bool) {
 				expT++
 				log = nil
 				maxLat = -1
+				minLat = -1
 				// a brand-new metrics object, so that the oracle cannot inherit a faulty reset; Reset() on the still empty
 				// object only aligns its rotation schedule with the breaker's metrics (index 0, last roll = now: a new
 				// RollingHDRHistogram has a zero last roll and would rotate at its first record)
